@@ -42,6 +42,25 @@ def generate(seed, tier, idx=0):
                                                      2 ** 1000, rng.randrange(1, 2 ** 70)])
                                          for _ in range(8)],
                 "lo": rng.choice([0, -5, 10, -2 ** 70])}
+    if rng.random() < 0.04:
+        # exactly / around whole blocks of the generator (624 words = 312 doubles)
+        # between seeding and reset / save / restore
+        n = rng.choice([312, 624, 936, 1248, 311, 313, 623, 625, 3120])
+        sd = rng.choice(SEEDS)
+        ops = []
+        if rng.random() < 0.3:
+            ops.append([0, "set_seed", rng.choice(SEEDS)])
+        for _ in range(n):
+            r = rng.random()
+            ops.append([0, "float"] if r < 0.6 else ([0, "int", 0, 9] if r < 0.8 else [0, "bool"]))
+        ops.append([0, rng.choice(["reset", "reset", "save"])])
+        for _ in range(rng.randint(1, 4)):
+            ops.append([0, "float"])
+        if ops[n if ops[0][1] != "set_seed" else n + 1][1] == "save":
+            for _ in range(rng.choice([312, 5])):
+                ops.append([0, "float"])
+            ops += [[0, "restore", 0.0], [0, "float"], [0, "reset"], [0, "float"]]
+        return {"kind": "history", "seeds": [sd], "ops": ops}
     k = rng.randint(1, 3)
     seeds = [rng.choice(SEEDS) if rng.random() < 0.6 else rng.randrange(-10 ** 6, 10 ** 9)
              for _ in range(k)]
